@@ -42,6 +42,47 @@ type txSpec struct {
 type sigScope struct {
 	scopes  transaction.WitnessScope
 	allowed []util.Uint160
+	groups  []*keys.PublicKey
+	rules   []transaction.WitnessRule
+}
+
+// condString renders a witness condition for the model: prefix notation, tokens separated by '.'; a list
+// And[c1,..,cn] / Or[..] is written as nested binary A / O.
+func (w *world) condString(c transaction.WitnessCondition) string {
+	list := func(op string, cs []transaction.WitnessCondition) string {
+		if len(cs) == 0 {
+			panic("empty condition list")
+		}
+		r := w.condString(cs[len(cs)-1])
+		for i := len(cs) - 2; i >= 0; i-- {
+			r = op + "." + w.condString(cs[i]) + "." + r
+		}
+		return r
+	}
+	switch v := c.(type) {
+	case *transaction.ConditionBoolean:
+		if bool(*v) {
+			return "T"
+		}
+		return "F"
+	case *transaction.ConditionNot:
+		return "N." + w.condString(v.Condition)
+	case *transaction.ConditionAnd:
+		return list("A", []transaction.WitnessCondition(*v))
+	case *transaction.ConditionOr:
+		return list("O", []transaction.WitnessCondition(*v))
+	case *transaction.ConditionScriptHash:
+		return fmt.Sprintf("S%d", w.aid(util.Uint160(*v)))
+	case transaction.ConditionCalledByEntry, *transaction.ConditionCalledByEntry:
+		return "E"
+	case *transaction.ConditionCalledByContract:
+		return fmt.Sprintf("C%d", w.aid(util.Uint160(*v)))
+	case *transaction.ConditionGroup:
+		return "G"
+	case *transaction.ConditionCalledByGroup:
+		return "H"
+	}
+	panic(fmt.Sprintf("condition type %T", c))
 }
 
 // newTxScoped builds and signs a transaction whose signers carry the given scopes.
@@ -55,7 +96,8 @@ func (w *world) newTxScoped(script []byte, sysFee int64, signers []neotest.Signe
 		if !ok {
 			sc = sigScope{scopes: transaction.Global}
 		}
-		tx.Signers = append(tx.Signers, transaction.Signer{Account: sg.ScriptHash(), Scopes: sc.scopes, AllowedContracts: sc.allowed})
+		tx.Signers = append(tx.Signers, transaction.Signer{Account: sg.ScriptHash(), Scopes: sc.scopes, AllowedContracts: sc.allowed,
+			AllowedGroups: sc.groups, Rules: sc.rules})
 	}
 	neotest.AddNetworkFee(w.t, w.bc, tx, signers...)
 	tx.SystemFee = sysFee
@@ -74,6 +116,16 @@ func (w *world) signersField(tx *transaction.Transaction) string {
 		e := fmt.Sprintf("%d:%d", w.aid(sg.Account), byte(sg.Scopes))
 		for _, h := range sg.AllowedContracts {
 			e += fmt.Sprintf(":%d", w.aid(h))
+		}
+		if len(sg.Rules) > 0 {
+			e += ":r"
+			for _, r := range sg.Rules {
+				a := "-"
+				if r.Action == transaction.WitnessAllow {
+					a = "+"
+				}
+				e += ":" + a + w.condString(r.Condition)
+			}
 		}
 		es = append(es, e)
 	}
@@ -359,6 +411,9 @@ func (w *world) runBlock(o *hx.Out, k int, specs []*txSpec) bool {
 			o.Count("tx:FAULT")
 			// (the events a faulted execution logged are not "emitted by a successful execution": ignored)
 			w.lastFault = ra[0].FaultException
+			if strings.Contains(ra[0].FaultException, "is blocked") {
+				o.Count("fault:blocked-contract")
+			}
 			if os.Getenv("TOKENS_DEBUG") != "" {
 				fmt.Fprintf(os.Stderr, "case %d block %d tx %d FAULT: %s\n", k, idx, i, ra[0].FaultException)
 			}
